@@ -1705,3 +1705,16 @@ class _FInfo:
 @external("numpy.finfo")
 def np_finfo(engine, run, a, k):
     return _FInfo()
+
+
+_prev_native_attr_sum = native_attr
+
+
+def native_attr(engine, run, obj, attr):   # noqa: F811
+    if isinstance(obj, SSeq) and obj.kind == "array" and attr == "sum":
+        def red(run2, a, k):
+            j = run2.fresh_int("j")
+            run2.assume(z3.And(j >= 0, j < to_z3(obj.length)))
+            return _reduce(run2, "sum", obj.at(j), obj.name, dict(index=j, length=obj.length))
+        return SNative(red, "ndarray.sum")
+    return _prev_native_attr_sum(engine, run, obj, attr)
